@@ -1,10 +1,10 @@
 #!/bin/bash
-# Runs every claimed check (quick by default) and prints one line per check.
+# runall.sh [quick|thorough] [driver args, e.g. --budget 240]: runs every claimed check and prints one line per check.
 cd /verif
-tier=${1:-quick}
+tier=${1:-quick}; shift 2>/dev/null
 for id in $(python3 -c "import json;print(' '.join(c['property_id'] for c in json.load(open('MANIFEST.json'))['checks']))"); do
   s=$(date +%s)
-  out=$(./check $id $tier 2>&1); rc=$?
+  out=$(./check $id $tier "$@" 2>&1); rc=$?
   echo "$id rc=$rc $(( $(date +%s)-s ))s :: $(echo "$out" | grep '^check ' | tail -1 | cut -c1-220)"
   echo "$out" | grep -E "^VIOLATION|infrastructure" | head -5
 done
